@@ -105,11 +105,21 @@ func versionHelper(cs []map[string]any, seed int64) ([]map[string]any, error) {
 	}
 	defer nd.Stop()
 	var out []map[string]any
-	for i, c := range cs {
-		th := c["theirs"].(map[string]any)
-		n := pvENR(seed, th["k"].(string), u8s(th["s"]), i)
-		out = append(out, map[string]any{"ev": "ver.helper", "mine": ints(c["mine"]), "theirs": map[string]any{"k": th["k"], "s": ints(th["s"])},
-			"res": queryThrice(nd.P, n), "generated": true})
+	// two passes over the peer list with fresh records (the cache is per node id): every kind of peer is also met AFTER
+	// every other kind on the same instance, so a negotiation that leaves a trace in the node's own state (seed C19-3:
+	// the own list sorted in place) shows in a later answer; the second pass runs in reverse order
+	for pass := 0; pass < 2; pass++ {
+		for j := range cs {
+			i := j
+			if pass == 1 {
+				i = len(cs) - 1 - j
+			}
+			c := cs[i]
+			th := c["theirs"].(map[string]any)
+			n := pvENR(seed, th["k"].(string), u8s(th["s"]), pass*500+i)
+			out = append(out, map[string]any{"ev": "ver.helper", "mine": ints(c["mine"]), "theirs": map[string]any{"k": th["k"], "s": ints(th["s"])},
+				"res": queryThrice(nd.P, n), "generated": true, "pass": pass})
+		}
 	}
 	return out, nil
 }
@@ -159,6 +169,11 @@ func versionHelperRandom(seed int64) ([]map[string]any, error) {
 		n := pvENR(seed, "set", th, 1000+i)
 		out = append(out, map[string]any{"ev": "ver.helper", "mine": toInts(mine), "theirs": map[string]any{"k": "set", "s": toInts(th)},
 			"res": queryThrice(nd.P, n), "generated": false})
+		if i%8 == 7 { // a peer without a version entry after listing peers: the base version is the first listed one
+			n := pvENR(seed, "none", nil, 2000+i)
+			out = append(out, map[string]any{"ev": "ver.helper", "mine": toInts(mine), "theirs": map[string]any{"k": "none", "s": []int{}},
+				"res": queryThrice(nd.P, n), "generated": false})
+		}
 	}
 	return out, nil
 }
